@@ -4,6 +4,7 @@ import PV.Lemmas.HashX.Stream
 import PV.Lemmas.HashX.Sha3
 import PV.Lemmas.HashX.Gost
 import PV.Lemmas.HashX.Dispatch
+import PV.Lemmas.HashX.SpecStd
 /-!
 # C11 (SHA-3 and GOST R 34.11-94 part) — digest = standard digest of the concatenation
 
@@ -199,6 +200,86 @@ theorem gost_historical_carry_lost :
 theorem gost_len_words_beyond_2_61 :
     (Gost.W8.mk ((2 ^ 61 : Nat).toUInt64 <<< 3).toUInt32 ((2 ^ 61 : Nat).toUInt64 >>> 29).toUInt32 0 0 0 0 0 0).toNat
       ≠ 8 * 2 ^ 61 := by decide
+
+/-! ## (d) the compression functions are the standards'
+
+Until here the one-shot specs shared `keccakF` and the GOST step function with the models.  This
+section removes that: the permutation of `pcryptohash-sha3.c` is proved equal to Keccak-f[1600]
+written from FIPS 202 (`PV.Spec.KeccakStd`: θ ρ π χ ι on `A[x, y]`, ρ offsets from the
+`(t+1)(t+2)/2` walk, ι constants from the LFSR `rc`), the step function of
+`pcryptohash-gost3411.c` equal to χ written from GOST R 34.11-94 (`PV.Spec.GostStd`: A, P, C2…C4,
+GOST 28147-89 with the source's S-boxes, ψ^12 / ψ / ψ^61), and the chunking and history theorems are
+restated against `PV.Spec.HashXStd`, which contains nothing that was derived from the C code. -/
+
+/-- the permutation in the C code (tables as extracted from the current source) is Keccak-f[1600] of FIPS 202 -/
+theorem keccakF_is_fips202 (A : Array UInt64) (hA : A.size = 25) : Keccak.keccakF A = KeccakStd.keccakF A :=
+  KeccakProof.keccakF_eq A hA
+
+/-- the round-constant table of the C source is what the LFSR `rc` of FIPS 202 (Algorithm 5) produces -/
+theorem keccak_round_constants : (List.range 24).map KeccakStd.RC = keccakK := KeccakProof.rc_table
+
+/-- the ρ offsets produced by the walk of FIPS 202 (Algorithm 2), reduced mod 64, in lane order `x + 5 y` -/
+theorem keccak_rho_offsets : (List.range 25).map (fun i => KeccakStd.offset (i % 5) (i / 5) % 64) =
+    [0, 1, 62, 28, 27, 36, 44, 6, 55, 20, 3, 10, 43, 25, 39, 41, 45, 15, 21, 8, 18, 2, 61, 56, 14] :=
+  KeccakProof.offset_table
+
+/-- the step function of the C code is χ of GOST R 34.11-94 -/
+theorem gost_step_is_standard (h m : Gost.W8) : Gost.step h m = GostStd.chi h m := GostProof.step_eq_chi h m
+
+/-- its parts (`GostProof.lfsr12` … are the source-order pieces of `Gost.step`, tied to it by `GostProof.step_parts`):
+    the three blocks of unrolled XOR formulas are `M ⊕ ψ^12 (S)`, `H ⊕ ψ (U)`, `ψ^61 (V)`;
+    `P_GOST_3411_P` is the byte permutation φ; the unrolled rounds are `E`; the in-place key generation is A / C2…C4 -/
+theorem gost_step_parts (x y : Gost.W8) (d0 d1 : UInt32) :
+    GostProof.lfsr12 x y = GostStd.xor8 y (GostStd.psiPow 12 x) ∧ GostProof.lfsr1 x y = GostStd.xor8 y (GostStd.psiPow 1 x) ∧
+    GostProof.lfsr61 x = GostStd.psiPow 61 x ∧ Gost.transP x = GostStd.P x ∧
+    Gost.encrypt d0 d1 x = GostStd.E x d0 d1 ∧ GostProof.keyGenW x y = GostStd.keyW x y :=
+  ⟨GostProof.lfsr12_eq x y, GostProof.lfsr1_eq x y, GostProof.lfsr61_eq x, GostProof.transP_eq x,
+   GostProof.encrypt_eq d0 d1 x, GostProof.keyGenW_eq x y⟩
+
+theorem chunking_sha3_224_std (chunks : List Bytes) (hc : ∀ c ∈ chunks, c.length < 2 ^ 63) :
+    Sha3.digest (Sha3.finish (chunks.foldl Sha3.update (Sha3.new sha3Rate224))) hashLen_sha3_224
+      = SpecStd.sha3_224 chunks.flatten := by
+  rw [chunking_sha3_224 chunks hc]; exact SpecStdProof.sha3_eq 224 _
+
+theorem chunking_sha3_256_std (chunks : List Bytes) (hc : ∀ c ∈ chunks, c.length < 2 ^ 63) :
+    Sha3.digest (Sha3.finish (chunks.foldl Sha3.update (Sha3.new sha3Rate256))) hashLen_sha3_256
+      = SpecStd.sha3_256 chunks.flatten := by
+  rw [chunking_sha3_256 chunks hc]; exact SpecStdProof.sha3_eq 256 _
+
+theorem chunking_sha3_384_std (chunks : List Bytes) (hc : ∀ c ∈ chunks, c.length < 2 ^ 63) :
+    Sha3.digest (Sha3.finish (chunks.foldl Sha3.update (Sha3.new sha3Rate384))) hashLen_sha3_384
+      = SpecStd.sha3_384 chunks.flatten := by
+  rw [chunking_sha3_384 chunks hc]; exact SpecStdProof.sha3_eq 384 _
+
+theorem chunking_sha3_512_std (chunks : List Bytes) (hc : ∀ c ∈ chunks, c.length < 2 ^ 63) :
+    Sha3.digest (Sha3.finish (chunks.foldl Sha3.update (Sha3.new sha3Rate512))) hashLen_sha3_512
+      = SpecStd.sha3_512 chunks.flatten := by
+  rw [chunking_sha3_512 chunks hc]; exact SpecStdProof.sha3_eq 512 _
+
+/-- **GOST, against the fully standard-structured one-shot hash** -/
+theorem chunking_gost_std (chunks : List Bytes) (hc : ∀ c ∈ chunks, c.length < 2 ^ 61) :
+    Gost.digest (Gost.finish (chunks.foldl Gost.update Gost.init)) = SpecStd.gost chunks.flatten := by
+  rw [chunking_gost chunks hc]; exact SpecStdProof.gost_eq _
+
+theorem history_sha3_224_std (ops : List Op) (hops : chunksOK (fun d => d.length < 2 ^ 63) ops) :
+    (Hash.new sha3_224).run ops = specRun hashLen_sha3_224 (fun cs => SpecStd.sha3_224 cs.flatten) ⟨[], false⟩ ops := by
+  rw [history_sha3_224 ops hops]; simp only [Spec.sha3_224, SpecStd.sha3_224, SpecStdProof.sha3_eq]
+
+theorem history_sha3_256_std (ops : List Op) (hops : chunksOK (fun d => d.length < 2 ^ 63) ops) :
+    (Hash.new sha3_256).run ops = specRun hashLen_sha3_256 (fun cs => SpecStd.sha3_256 cs.flatten) ⟨[], false⟩ ops := by
+  rw [history_sha3_256 ops hops]; simp only [Spec.sha3_256, SpecStd.sha3_256, SpecStdProof.sha3_eq]
+
+theorem history_sha3_384_std (ops : List Op) (hops : chunksOK (fun d => d.length < 2 ^ 63) ops) :
+    (Hash.new sha3_384).run ops = specRun hashLen_sha3_384 (fun cs => SpecStd.sha3_384 cs.flatten) ⟨[], false⟩ ops := by
+  rw [history_sha3_384 ops hops]; simp only [Spec.sha3_384, SpecStd.sha3_384, SpecStdProof.sha3_eq]
+
+theorem history_sha3_512_std (ops : List Op) (hops : chunksOK (fun d => d.length < 2 ^ 63) ops) :
+    (Hash.new sha3_512).run ops = specRun hashLen_sha3_512 (fun cs => SpecStd.sha3_512 cs.flatten) ⟨[], false⟩ ops := by
+  rw [history_sha3_512 ops hops]; simp only [Spec.sha3_512, SpecStd.sha3_512, SpecStdProof.sha3_eq]
+
+theorem history_gost_std (ops : List Op) (hops : chunksOK (fun d => d.length < 2 ^ 61) ops) :
+    (Hash.new gost).run ops = specRun hashLen_gost (fun cs => SpecStd.gost cs.flatten) ⟨[], false⟩ ops := by
+  rw [history_gost ops hops]; simp only [SpecStdProof.gost_eq]
 
 /-! ## non-vacuity -/
 example : ∀ c ∈ ([[1, 2, 3], [], [4]] : List Bytes), c.length < 2 ^ 61 := by decide
